@@ -18,10 +18,12 @@ structure Input where
   face : Nat
   name : Name
   params : Params
+  closes : Bool := false     -- instead of an arrival: face `face` closes on its own
 
-def stepIn (st : St) (i : Input) : St := (sysStep st i.ext i.routed i.face i.name i.params).1
+def stepIn (st : St) (i : Input) : St :=
+  if i.closes then faceClosed st i.ext i.face else (sysStep st i.ext i.routed i.face i.name i.params).1
 
-/-- the state after any history of arrivals -/
+/-- the state after any history of arrivals and face closures -/
 def runHistory (st : St) (h : List Input) : St := h.foldl stepIn st
 
 theorem wf_init (lh : Bool) : StWF (init lh) := by
@@ -163,12 +165,35 @@ theorem wf_step (st : St) (ext : Ext) (routed : Bool) (face : Nat) (name : Name)
         · rw [hst]; exact ⟨⟨hwf, hid⟩, h0, h1⟩
       · rw [hv]; exact ⟨⟨hwf, hid⟩, h0, h1⟩
 
+/-- a face closing on its own preserves the invariant -/
+theorem wf_closed (st : St) (ext : Ext) (f : Nat) (h : StWF st) : StWF (faceClosed st ext f) := by
+  unfold faceClosed
+  split
+  · obtain ⟨⟨hwf, hid⟩, h0, h1⟩ := h
+    exact ⟨⟨fun g hg hs => hwf g (mem_faceRemove hg) hs, fun g hg => hid g (mem_faceRemove hg)⟩, h0, h1⟩
+  · exact h
+
+/-- … and keeps the tables usable; what remains listed is the old face table minus the face, and
+    the RIB without its routes -/
+theorem usable_closed (st : St) (ext : Ext) (f : Nat) (h : usable (tablesOf st) = true) :
+    usable (tablesOf (faceClosed st ext f)) = true := by
+  unfold faceClosed
+  split
+  · rw [usable_iff] at h ⊢
+    exact ⟨h.1, fun g hg => h.2.1 g (mem_faceRemove hg), h.2.2⟩
+  · exact h
+
+theorem stepIn_wf (st : St) (i : Input) (h : StWF st) : StWF (stepIn st i) := by
+  unfold stepIn; split
+  · exact wf_closed _ _ _ h
+  · exact wf_step _ _ _ _ _ _ h
+
 theorem wf_history (lh : Bool) (h : List Input) : StWF (runHistory (init lh) h) := by
   unfold runHistory
   suffices ∀ st, StWF st → StWF (h.foldl stepIn st) from this _ (wf_init lh)
   induction h with
   | nil => intro st hst; exact hst
-  | cons i t ih => intro st hst; exact ih _ (wf_step st i.ext i.routed i.face i.name i.params hst)
+  | cons i t ih => intro st hst; exact ih _ (stepIn_wf st i hst)
 
 /-! ### no panic for any parameters -/
 
@@ -587,7 +612,10 @@ theorem usable_history (lh : Bool) (h : List Input) : usable (tablesOf (runHisto
   | nil => intro st _ hu; exact hu
   | cons i t ih =>
     intro st hst hu
-    apply ih _ (wf_step st i.ext i.routed i.face i.name i.params hst)
+    apply ih _ (stepIn_wf st i hst)
+    unfold stepIn
+    split
+    · exact usable_closed _ _ _ hu
     have := model_satisfies_spec st i.ext i.routed i.face i.name i.params hst
     have hcu : cUsable (obsOf st i.ext i.routed i.face i.name i.params) = true := by
       apply Classical.byContradiction
